@@ -1,6 +1,6 @@
 (** Evaluator glue for C17: runs the SafeFS / Glob / PathClean models on what
     the harness ran the real code on. *)
-From AGH Require Import Base.Run Base.Bytes Base.PathClean Base.Glob Model.SafeFS.
+From AGH Require Import Base.Run Base.Bytes Base.PathClean Base.Glob Model.SafeFS Model.SafeFSConf.
 Local Open Scope N_scope.
 
 Definition rej_code (k : rej) : N :=
@@ -144,6 +144,49 @@ Definition dec_obs (root : bytes) (o : eobs) : obs_step :=
 Definition gres_code (r : gres bool) : N :=
   match r with GOk false => 0 | GOk true => 1 | GBad => 2 | GFuel => 3 end.
 
+(** Round 5: the value of [filtering.safe_fs_patterns] in a configuration
+    file as the harness wrote it ([where_], [spelling], [flow] only tell the
+    renderings apart: key absent from the section / no section / the key in
+    another place or letter case; the spellings of null; flow or block style). *)
+Inductive pitem := pi_str (s : pstr) | pi_null | pi_plain (t : bytes) | pi_seq | pi_map.
+Inductive pshape :=
+  | ps_absent (where_ : N)
+  | ps_null (spelling : N)
+  | ps_seq (flow : bool) (items : list pitem)
+  | ps_scalar
+  | ps_map
+  | ps_dup.
+
+Definition dec_item (root : bytes) (i : pitem) : yitem :=
+  match i with
+  | pi_str s => YIStr (dec root s)
+  | pi_null => YINull
+  | pi_plain t => YIPlain t
+  | pi_seq => YISeq
+  | pi_map => YIMap
+  end.
+
+Definition dec_shape (root : bytes) (s : pshape) : yshape :=
+  match s with
+  | ps_absent _ => YAbsent
+  | ps_null _ => YNull
+  | ps_seq _ items => YSeq (map (dec_item root) items)
+  | ps_scalar => YScalar
+  | ps_map => YMap
+  | ps_dup => YDup
+  end.
+
+(** a Go []string as observed: None = nil *)
+Definition pgs := option (list pstr).
+Definition dec_gs (root : bytes) (g : pgs) : gslice :=
+  match g with None => GNil | Some l => GSlice (map (dec root) l) end.
+Definition eqb_gs (a b : gslice) : bool :=
+  match a, b with
+  | GNil, GNil => true
+  | GSlice x, GSlice y => eqb_list eqb_bytes x y
+  | _, _ => false
+  end.
+
 Inductive case :=
   (* the harness' tree and host candidates: must be the constants above *)
   | CTree (files : list (bytes * N)) (extras : list bytes)
@@ -164,6 +207,19 @@ Inductive case :=
   | CHistH (root : bytes) (mask : N) (pats : list pstr)
            (http : list (bytes * N)) (urlok : list bytes)
            (block allow : list prow) (ops : list eop) (obs : list eobs)
+  (* round 5: a configuration file through package home's real start-up
+     (parseConfig over a copy of the process' default object, then
+     setupDNSFilteringConf, filtering.New), a history, config.write, a restart
+     from the written file, a second history.  [dflt]: SafeFSPatterns of the
+     default object; [start]: 0 started / 1 parseConfig failed / 2 New failed;
+     [conf]: config.Filtering.SafeFSPatterns after parseConfig; [written]: the
+     sequence under the key in the file config.write produced (None: no
+     sequence there); the lists of the file are [block] / [allow] *)
+  | CConf (root : bytes) (mask : N) (extra : list (bytes * N)) (wd : pstr)
+          (dflt : pgs) (shape : pshape) (start : N) (conf : pgs)
+          (http : list (bytes * N)) (urlok : list bytes)
+          (block allow : list prow) (ops : list eop) (obs : list eobs)
+          (written : pgs) (start2 : N) (conf2 : pgs) (ops2 : list eop) (obs2 : list eobs)
   (* what the client built by home.httpClient handed back for a location
      ([m]: marker of the body, 0 = nothing): the hypothesis [client_no_local]
      of the theorems, evaluated on the real client *)
@@ -210,6 +266,64 @@ Definition coarse_step (o : obs_step) : obs_step :=
 Definition client_obs_ok (root : bytes) (loc : pstr) (m : N) : bool :=
   (m =? 0) || client_no_local_b (tree_files root) ((dec root loc, m) :: nil).
 
+(** Round 5: a world with the patterns start-up put in force. *)
+Definition mk_world_p (root : bytes) (mask : N) (extra : list (bytes * N)) (pats : list bytes)
+    (http : list (bytes * N)) (urlok : list bytes) : world :=
+  {| w_pats := pats;
+     w_files := all_files root extra;
+     w_dirs := flat_map (fun x => ancestors (fst x)) (all_files root extra) ++ select_mask mask 0 host_extras;
+     w_http := http; w_urlok := urlok |}.
+
+Definition planted_state (root : bytes) (block allow : list prow) : state :=
+  {| s_block := map (fun r => mk_flt (dec_row root r)) block;
+     s_allow := map (fun r => mk_flt (dec_row root r)) allow |}.
+
+Definition coarse_trace (w : world) (st : state) (ops : list op) : list obs_step :=
+  map coarse_step (map proj_step (trace w st ops)).
+
+(** what the model says of a CConf case: start code, configuration slice,
+    first trace, written list, second start code, second slice, second trace *)
+Definition conf_model root mask extra wd dflt shape http urlok block allow ops ops2
+  : N * gslice * list obs_step * list bytes * N * gslice * list obs_step :=
+  let wdir := dec root wd in
+  let d := dec_gs root dflt in
+  match load wdir d (dec_shape root shape) with
+  | StRejectedParse => (1, GNil, nil, nil, 1, GNil, nil)
+  | StRejectedNew g => (2, g, nil, nil, 1, GNil, nil)
+  | StStarted g pats =>
+      let w := mk_world_p root mask extra pats http urlok in
+      let st0 := planted_state root block allow in
+      let ops' := map (dec_op root) ops in
+      let tr := trace w st0 ops' in
+      let tr1 := map coarse_step (map proj_step tr) in
+      (* the state after the last step ([fst (run w st0 ops')], read off the trace) *)
+      let st1 := restart_state (last (map snd tr) st0) in
+      match load wdir d (write_shape g) with
+      | StStarted g2 pats2 =>
+          (0, g, tr1, elems g, 0, g2,
+           coarse_trace (mk_world_p root mask extra pats2 http urlok) st1 (map (dec_op root) ops2))
+      | StRejectedNew g2 => (0, g, tr1, elems g, 2, g2, nil)
+      | StRejectedParse => (0, g, tr1, elems g, 1, GNil, nil)
+      end
+  end.
+
+Definition conf_ok root mask extra wd dflt shape (start : N) (conf : pgs) http urlok block allow ops
+    (obs : list eobs) (written : pgs) (start2 : N) (conf2 : pgs) ops2 (obs2 : list eobs) : bool :=
+  match conf_model root mask extra wd dflt shape http urlok block allow ops ops2 with
+  | (m_start, m_conf, m_tr, m_written, m_start2, m_conf2, m_tr2) =>
+      (m_start =? start) &&
+      (if m_start =? 1 then true
+       else eqb_gs m_conf (dec_gs root conf) &&
+            (if m_start =? 2 then true
+             else eqb_list eqb_step m_tr (map (dec_obs root) obs) &&
+                  match written with
+                  | Some l => eqb_list eqb_bytes m_written (map (dec root) l)
+                  | None => false
+                  end &&
+                  (m_start2 =? start2) && eqb_gs m_conf2 (dec_gs root conf2) &&
+                  eqb_list eqb_step m_tr2 (map (dec_obs root) obs2)))
+  end.
+
 Definition case_ok (c : case) : bool :=
   match c with
   | CTree files extras =>
@@ -223,6 +337,8 @@ Definition case_ok (c : case) : bool :=
   | CHistH root mask pats http urlok block allow ops obs =>
       eqb_list eqb_step (map coarse_step (hist_trace root mask pats http urlok block allow ops))
                (map (dec_obs root) obs)
+  | CConf root mask extra wd dflt shape start conf http urlok block allow ops obs written start2 conf2 ops2 obs2 =>
+      conf_ok root mask extra wd dflt shape start conf http urlok block allow ops obs written start2 conf2 ops2 obs2
   | CClient root loc m => client_obs_ok root loc m
   | CValidate root mask pats urlok loc obs =>
       let w := mk_world root mask pats nil urlok in
@@ -247,6 +363,11 @@ Definition explain (c : case) : list obs_step * N * N * bytes :=
       (hist_trace_x root mask extra pats http urlok block allow ops, 0, 0, nil)
   | CHistH root mask pats http urlok block allow ops _ =>
       (map coarse_step (hist_trace root mask pats http urlok block allow ops), 0, 0, nil)
+  | CConf root mask extra wd dflt shape _ _ http urlok block allow ops _ _ _ _ ops2 _ =>
+      match conf_model root mask extra wd dflt shape http urlok block allow ops ops2 with
+      | (m_start, m_conf, m_tr, m_written, m_start2, m_conf2, m_tr2) =>
+          (m_tr ++ m_tr2, m_start, m_start2, concat (map (fun p => p ++ 10 :: nil) (elems m_conf)))
+      end
   | CClient root loc m => (nil, if client_obs_ok root loc m then 0 else 1, m, nil)
   | CValidate root mask pats urlok loc _ =>
       let w := mk_world root mask pats nil urlok in
